@@ -75,9 +75,10 @@ def _nontrivial(key, prefix, au):
 def _wire(kind, key, prefix, au, ignore_exc=False, encoding="ascii"):
     env = Env()
     c = env.client(kind, key_prefix=prefix, allow_unicode_keys=au, ignore_exc=ignore_exc, encoding=encoding)
+    mark = len(env.net.log)          # (the ElastiCache subclass has talked to its configuration endpoint by now)
     r = env.call(c.get, key)
     srv = env.server
-    sent = any(e[3] == "sendall" for e in env.net.log)
+    sent = any(e[3] == "sendall" for e in env.net.log[mark:])
     return r, srv, sent, env
 
 
@@ -114,7 +115,7 @@ def check(case):
             if got != want or type(got) is not bytes:
                 raise Violation(["wrong-wire-key", path], "returned %r, expected %r: %s" % (got, want, desc))
     else:
-        kind = {"wire-client": "client", "wire-pooled": "pooled", "wire-hash": "hash", "wire-hash-pooled": "hash-pooled",
+        kind = {"wire-client": "client", "wire-pooled": "pooled", "wire-hash": "hash", "wire-hash-pooled": "hash-pooled", "wire-aws": "aws", "wire-aws-pooled": "aws-pooled",
                 "wire-client-ie": "client", "wire-hash-ie": "hash", "wire-hash-pooled-ie": "hash-pooled"}[path]
         try:
             r, srv, sent, env = _wire(kind, key, prefix, au, ignore_exc=path.endswith("-ie"), encoding=encoding)
@@ -162,7 +163,7 @@ def full_alphabet_cases(tier, seed):
     for a in range(256):
         kb = bytes([a])
         for au in (False, True):
-            for path in _paths_cheap() + ["wire-client", "wire-pooled", "wire-hash", "wire-hash-pooled"]:
+            for path in _paths_cheap() + ["wire-client", "wire-pooled", "wire-hash", "wire-hash-pooled"] + (["wire-aws"] if a in REPS or a >= 0x7F else []):
                 yield (kb, b"", au, path)
                 yield (chr(a), b"", au, path)
                 yield (kb, "pre", au, path)
@@ -177,7 +178,7 @@ def full_alphabet_cases(tier, seed):
     for k in NON_NORMAL:
         for au in (False, True) + AU_SPELLINGS:
             for prefix in (b"", b"p:", "pre"):
-                for path in _paths_cheap() + ["wire-client", "wire-pooled", "wire-hash", "wire-hash-pooled", "wire-client-ie"]:
+                for path in _paths_cheap() + ["wire-client", "wire-pooled", "wire-hash", "wire-hash-pooled", "wire-client-ie", "wire-aws", "wire-aws-pooled"]:
                     yield (k, prefix, au, path)
                     yield (k.encode("utf-8"), prefix, au, path)
     for cp in EXTRA_CP:
@@ -354,7 +355,7 @@ def random_strategy(tier):
                        st.integers(0, 250).map(lambda n: b"P" * n),
                        st.text(st.characters(min_codepoint=0x21, max_codepoint=0x7E), max_size=10))
     path = st.sampled_from(["helper", "client", "pooled", "wire-client", "wire-pooled", "wire-hash", "wire-hash-pooled",
-                            "wire-client-ie", "wire-hash-ie", "wire-hash-pooled-ie"])
+                            "wire-client-ie", "wire-hash-ie", "wire-hash-pooled-ie", "wire-aws", "wire-aws-pooled"])
     return st.tuples(st.one_of(skey, bkey, longk), prefix, st.one_of(st.booleans(), st.booleans(), st.sampled_from(AU_SPELLINGS)), path,
                      st.sampled_from(["ascii", "ascii", "utf-8", "latin-1"]))
 
